@@ -41,7 +41,7 @@ def opts(tier):
     o.huge_p = 0.01
     from .c13 import add_scaling
     o.scaling = lambda rng, spec, ctype: add_scaling(rng, spec, ctype, p=0.3)
-    return o
+    return gen.deepen(o, tier)
 
 
 def generate(rng, tier):
